@@ -1,4 +1,4 @@
-import Proofs.WritersThms
+import Proofs.WritersLive
 /-!
 # C12 — Versioned-zone writers are serialized, FIFO and deadlock-free in every schedule
 
@@ -9,11 +9,14 @@ their roles `c.role` (writer that commits / writer that rolls back / reader) and
 one step = one source line that touches the lock, an event or a guarded field.
 All statements are proved through one inductive invariant (`Model.Writers.Inv`, lean/Proofs/Writers*.lean).
 
-Liveness proper ("every waiting writer is *eventually* admitted") needs a fair scheduler and is **partial**: what is
-proved is that some thread can always move while anyone is unfinished (`deadlock_free`), that the holder of the wake-up
-token and the lock holder are never blocked (`token_holder_enabled`, `lock_hold_bounded`), and that a waiter at queue
-position `k` is exactly the `k`-th next admission after the token holder (`bounded_bypass`): under any scheduler that
-keeps scheduling enabled threads it is admitted after the `k + 1` preceding write transactions have ended.
+Liveness ("every waiting writer is eventually admitted once its predecessors end") is proved under an explicit
+**bounded-fairness** hypothesis (`FairExec c n k`: the scheduler never passes over a started, enabled thread more than `k`
+times between two of its steps), in finitary form with an explicit bound (`eventually_admitted`): a writer that has
+arrived is admitted within `360·(d+1)·(k+1)²` steps, `d` = admissions still needed (queue position + token holder + 1),
+independently of the number of threads.  Plain weak fairness ("continuously enabled ⇒ eventually scheduled") is *not*
+enough for this code: `threading.Lock` is not FIFO, so a writer (or the token holder) sitting in `acquire` is enabled
+only intermittently and an unbounded stream of other lock users could overtake it forever; the skip bound is what rules
+that out.  Transaction bodies terminate by construction (one model step).
 -/
 namespace C12
 open Model.Writers
@@ -153,21 +156,9 @@ theorem bounded_bypass (h : Reach c n s) {k : Nat} {e : Ev} (hk : s.waiters[k]? 
 /-- every writer arrives once: the arrival order has no repetition (so "position in the arrival order" is meaningful). -/
 theorem arrivals_nodup (h : Reach c n s) : s.arrivals.Nodup := (reach_invArr h).nodup
 
-/-
-Full statement of the liveness clause ("every waiting writer is eventually admitted once its predecessors end"), not
-proved: for every *weakly fair* infinite run `σ : Nat → State` of the system (each `σ (i+1)` a step of some thread `< n`
-from `σ i`, and no thread enabled from some point on forever without being scheduled), and every `i`, `t` with
-`(σ i).loc t` parked in `event.wait()`, there is `j ≥ i` with `t ∈ (σ j).admitted`.
-It needs a scheduler-fairness hypothesis and the liveness half of the `threading` contract (an `acquire` of a free lock
-and a `wait` on a set event do return), which are outside what the model states.  What is proved instead, for every
-interleaving, is the safety core from which the fair-run argument is a routine ranking argument
-(rank = `(k, lockFuel, program points left)`): the queue position only decreases (`bounded_bypass`), somebody can
-always move (`deadlock_free`), and the thread that must move next for `t` to advance (lock holder, else owner of the
-open transaction, else token holder) is itself enabled (`lock_hold_bounded`, `token_holder_enabled`).
--/
-/-- partial form of the liveness clause: a parked writer is never stuck forever *for lack of an enabled step*: its event
-is queued or is the token; some thread can move; and if it holds the token and the lock is free, it can move itself. -/
-theorem eventually_admitted_partial (h : Reach c n s) (t : Tid) (ht : t < n) (hw : (s.loc t).pc = .wWait) :
+/-- a parked writer is never stuck *for lack of an enabled step*: its event is queued or is the token; some thread can
+move; and if it holds the token and the lock is free, it can move itself (the safety core of liveness, no fairness needed). -/
+theorem waiting_writer_not_stuck (h : Reach c n s) (t : Tid) (ht : t < n) (hw : (s.loc t).pc = .wWait) :
     (∃ e, (s.loc t).ev = some e ∧ (e ∈ s.waiters ∨ s.writeEvent = some e)) ∧
     (∃ u, u < n ∧ (step c s u).isSome) ∧
     (∀ e, (s.loc t).ev = some e → s.writeEvent = some e → s.lock = none → (step c s t).isSome) := by
@@ -175,6 +166,68 @@ theorem eventually_admitted_partial (h : Reach c n s) (t : Tid) (ht : t < n) (hw
   intro e he hwe hl
   have := token_holder_enabled h e hwe hl
   rwa [(token_unique h e hwe).2.2.2 t he]
+
+variable {k L : Nat} {sk sk' : Tid → Nat}
+
+/-- the ranking argument: for a writer `w` that has arrived and is not yet admitted, **every** step of a `k`-fair
+scheduler decreases `rank` = flattened lexicographic measure (admissions still needed; steps left of the thread the next
+admission waits for: owner of the open transaction / the thread waking the head of the queue / the token holder;
+its fairness budget; `lockFuel` of a foreign lock holder; that holder's fairness budget). -/
+theorem fair_step_decreases_rank (h : Reach c n s) (w : Tid) (hw : w ∈ s.arrivals) (hna : w ∉ s.admitted) {t : Tid}
+    (hst : FStep c k s sk t s' sk') :
+    rank k s' sk' (stageThread s') (stageM s' w) < rank k s sk (stageThread s) (stageM s w) :=
+  writer_rank_step h hw hna hst
+
+/-- liveness in the form that speaks about every fair execution, short or long: after `L` steps of a `k`-fair execution
+either `w` has been admitted, or the rank has gone down by at least `L` (and the rank is at most
+`admitBound k d = 360·(d+1)·(k+1)²`, `d` = admissions still needed). -/
+theorem fair_execution_bound (h : Reach c n s) (w : Tid) (hw : w ∈ s.arrivals) (hx : FairExec c n k s sk L s' sk') :
+    w ∈ s'.admitted ∨
+      (L + rank k s' sk' (stageThread s') (stageM s' w) ≤ rank k s sk (stageThread s) (stageM s w) ∧
+        rank k s sk (stageThread s) (stageM s w) ≤ admitBound k (needD s w)) := by
+  rcases writer_admitted_or_rank h hw hx with h1 | ⟨_, h1⟩
+  · exact .inl h1
+  · refine .inr ⟨h1, Nat.le_trans (rank_le _ _ _ _ _) ?_⟩
+    have hf := stageFuel_lt (s.loc (stageThread s)).pc
+    unfold admitBound
+    have : 9 * (stageM s w + 1) ≤ 360 * (needD s w + 1) := by unfold stageM; omega
+    exact Nat.mul_le_mul_right _ (Nat.mul_le_mul_right _ this)
+
+/-- `eventually_admitted` ("every waiting writer is eventually admitted once its predecessors end"), finitary form under
+bounded fairness: from any reachable state, along **every** `k`-fair execution of length at least
+`admitBound k d = 360·(d+1)·(k+1)²`, a writer that has arrived (`w ∈ arrivals`: it has been through its first critical
+section, where it either was admitted or enqueued itself) has been admitted; `d = needD s w` is the number of admissions
+still needed.  The bound does not depend on the number of threads nor on what other writers and readers do. -/
+theorem eventually_admitted (h : Reach c n s) (w : Tid) (hw : w ∈ s.arrivals) (hx : FairExec c n k s sk L s' sk')
+    (hL : admitBound k (needD s w) ≤ L) : w ∈ s'.admitted :=
+  eventually_admitted_aux h hw hx hL
+
+/-- the same for a writer parked in `event.wait()` -/
+theorem eventually_admitted_waiting (h : Reach c n s) (w : Tid) (hw : (s.loc w).pc = .wWait)
+    (hx : FairExec c n k s sk L s' sk') (hL : admitBound k (needD s w) ≤ L) : w ∈ s'.admitted :=
+  eventually_admitted_aux h (waiting_mem_arrivals h hw) hx hL
+
+/-- the same in terms of the queue: the writer whose event is at position `j` of `_write_waiters` needs at most `j + 2`
+admissions (the token holder, the `j` waiters before it, itself), hence is admitted within `360·(j+3)·(k+1)²` steps. -/
+theorem eventually_admitted_queue (h : Reach c n s) {j : Nat} {e : Ev} (hj : s.waiters[j]? = some e)
+    (hx : FairExec c n k s sk L s' sk') (hL : admitBound k (j + 2) ≤ L) : s.owner e ∈ s'.admitted := by
+  obtain ⟨hmem, hd⟩ := needD_of_queue h hj
+  have := tokPart_length_le s
+  exact eventually_admitted_aux h hmem hx (Nat.le_trans (admitBound_mono (by omega)) hL)
+
+/-- an execution that a fair scheduler cannot continue (no thread of the pool enabled) has admitted every writer that had
+arrived: together with `eventually_admitted` this covers executions shorter than the bound. -/
+theorem admitted_when_quiescent (h : Reach c n s) (w : Tid) (hw : w ∈ s.arrivals)
+    (hq : ∀ u, u < n → (step c s u).isSome = false) : w ∈ s.admitted := by
+  apply Classical.byContradiction
+  intro hna
+  have hi := reach_inv h
+  have hp := pending_ne_nil h hw hna
+  have hpos := stage_pc hi hp
+  have hnd := stageFuel_not_idle _ hpos
+  have hσn : stageThread s < n := lt_of_not_idle hi hnd.1
+  obtain ⟨u, hu, he⟩ := deadlock_free h (stageThread s) hσn hnd.2
+  rw [hq u hu] at he; cases he
 
 /-- `serial_equivalence`: "the final zone equals the serial application of the committed transactions in admission
 order": `zone.nodes` is the fold of the bodies of the committed transactions, which are the admitted committing
@@ -234,6 +287,46 @@ theorem lock_hold_stable (h : Reach c n s) (u t : Tid) (hl : s.lock = some u) (h
     (hs : step c s t = some s') : s'.lock = some u ∧ s'.loc u = s.loc u :=
   holder_stable (reach_inv h).lk hl hne (step_trans hs)
 
+/-- `readers_wait_free` (1), own steps: a reader's program is straight-line: every own step uses up exactly one unit of
+`readerFuel` (11 at the call of `reader()`, 6 when `reader()` has returned, 0 when `_end_read` has returned): `reader()`
+completes in exactly 5 own steps and `_end_read` in exactly 4, no retry loop, whatever the writers do. -/
+theorem reader_own_steps (h : Reach c n s) (r : Tid) (hrole : c.role r = .reader) (hs : step c s r = some s') :
+    readerFuel (s'.loc r).pc + 1 = readerFuel (s.loc r).pc :=
+  reader_step_fuel hrole (reader_pcs h r hrole) (step_trans hs)
+
+/-- `readers_wait_free` (2), what can delay a reader: an unfinished reader can take its next step unless another thread
+holds `_version_lock` at this instant (a hold that ends within 8 steps of that thread, `lock_hold_bounded`): no condition
+on `_write_txn`, `_write_event` or the waiter queue appears. -/
+theorem reader_blocked_only_by_lock (h : Reach c n s) (r : Tid) (hrole : c.role r = .reader)
+    (hd : (s.loc r).pc ≠ .done) : (step c s r).isSome ∨ ∃ v, s.lock = some v ∧ v ≠ r := by
+  rcases reader_enabled (reach_inv h) (reader_pcs h r hrole) hd with h1 | h1
+  · exact .inl ((enabled_iff c s r).mpr h1)
+  · exact .inr h1
+
+/-- `readers_wait_free` (3), finitary form under bounded fairness: a reader that has called `reader()` has returned from
+`_end_read` after at most `108·(k+1)²` steps of any `k`-fair execution: a bound in which no write transaction, queue
+length or number of threads appears (each of its 10 own steps costs at most `k` passes plus `k` lock hand-overs of at
+most 8 steps, each delayed by at most `k` passes). -/
+theorem readers_wait_free (h : Reach c n s) (r : Tid) (hrole : c.role r = .reader) (hst : (s.loc r).pc ≠ .idle)
+    (hx : FairExec c n k s sk L s' sk') (hL : 108 * (k + 1) * (k + 1) ≤ L) : (s'.loc r).pc = .done := by
+  rcases reader_finishes h hrole hst hx with h1 | h1
+  · exact h1
+  · apply Classical.byContradiction
+    intro hnd
+    have hr' := reach_of_reachFrom h (reachFrom_of_fairExec hx)
+    have hp' := reader_pcs hr' r hrole
+    have hidle' := not_idle_reachFrom hst (reachFrom_of_fairExec hx)
+    have hpos : 0 < readerFuel (s'.loc r).pc := by
+      revert hp' hnd hidle'; cases (s'.loc r).pc <;> simp
+    have hrp : 0 < rank k s' sk' r (readerFuel (s'.loc r).pc) := rank_pos hpos
+    have hle := rank_le k s sk r (readerFuel (s.loc r).pc)
+    have hf : readerFuel (s.loc r).pc ≤ 10 := by
+      have hp := reader_pcs h r hrole
+      revert hp hst; cases (s.loc r).pc <;> simp
+    have h2 : 9 * (readerFuel (s.loc r).pc + 1) * (k + 1) * (k + 1) ≤ 108 * (k + 1) * (k + 1) :=
+      Nat.mul_le_mul_right _ (Nat.mul_le_mul_right _ (by omega))
+    omega
+
 /-! ## Non-vacuity: the protocol's rare interleaving is reachable in the model
 
 Writer 0 is admitted, writer 1 queues, writer 0 commits and wakes 1 (token out, event set), and writer 2 arrives
@@ -282,5 +375,34 @@ theorem demoR_reach : Reach demoCfgR 2 demoStateR :=
 -- exists, the writer inside its commit section
 example : readerHasPc (demoStateR.loc 1).pc = true ∧ (demoStateR.loc 1).seen = [] ∧ demoStateR.versions = [(1, []), (2, [7])] ∧
     demoStateR.lock = some 0 ∧ demoCfgR.role 1 = .reader ∧ demoStateR.nodes = [7] := ⟨rfl, rfl, rfl, rfl, rfl, rfl⟩
+
+/-! ## Non-vacuity of the fairness hypotheses
+
+A 2-fair execution of three committing writers that all start before the first one is admitted (70 steps): writers 1
+and 2 queue up and are admitted in arrival order.  (The length hypothesis `admitBound k d ≤ L` of `eventually_admitted`
+is met only by long executions, i.e. large pools whose threads start a few at a time: the bound is independent of `n`
+while a pool of `n` threads has executions of length up to about `40·n`; `fair_execution_bound` and
+`admitted_when_quiescent` are the forms that also speak about short executions.) -/
+def fairSchedule : List Tid :=
+  [0, 1, 2, 0, 1, 2, 0, 0, 0, 0, 0, 1, 0, 1, 0, 1, 0, 1, 0, 1, 2, 2, 2, 2, 2, 0, 0, 0, 0, 0, 0, 0, 0, 0, 1, 1, 1, 1, 1, 1,
+   1, 1, 1, 1, 1, 1, 1, 1, 1, 1, 1, 1, 1, 2, 2, 2, 2, 2, 2, 2, 2, 2, 2, 2, 2, 2, 2, 2, 2, 2]
+
+/-- state after the first 20 steps: writer 0 holds the transaction, writer 1 is queued, writer 2 has not arrived yet -/
+def fairMid : State × (Tid → Nat) := (fairRun demoCfg 3 2 init (fun _ => 0) (fairSchedule.take 20)).getD (init, fun _ => 0)
+
+example : fairMid.1.admitted = [0] ∧ fairMid.1.waiters = [0] ∧ fairMid.1.owner 0 = 1 ∧ fairMid.1.arrivals = [0, 1] ∧
+    needD fairMid.1 1 = 1 ∧ (fairMid.1.loc 1).pc = .wWait := ⟨rfl, rfl, rfl, rfl, rfl, rfl⟩
+
+theorem fairMid_reach : Reach demoCfg 3 fairMid.1 :=
+  reach_of_reachFrom .init (reachFrom_of_fairExec
+    (fairExec_of_fairRun (k := 2) (fairSchedule.take 20) init (fun _ => 0) fairMid.1 fairMid.2
+      (by intro u _; exact ⟨rfl, rfl⟩) rfl))
+
+/-- a 2-fair execution of 50 steps from there, at the end of which the waiting writers 1 and 2 have been admitted -/
+theorem fairMid_exec : ∃ s' sk', FairExec demoCfg 3 2 fairMid.1 fairMid.2 50 s' sk' ∧ s'.admitted = [0, 1, 2] ∧
+    s'.nodes = [0, 1, 2] := by
+  have hpool := fairRun_pool (c := demoCfg) (n := 3) (k := 2) (fairSchedule.take 20) init (fun _ => 0) fairMid.1 fairMid.2
+    (by intro u _; exact ⟨rfl, rfl⟩) rfl
+  exact ⟨_, _, fairExec_of_fairRun (fairSchedule.drop 20) fairMid.1 fairMid.2 _ _ hpool rfl, rfl, rfl⟩
 
 end C12
